@@ -114,5 +114,5 @@ pub fn c13_recursive_memo_body<S: Src>(s: &mut S) {
 crate::harnesses! {
     c13_history [6] = c13_history_body;
     c13_wrappers [6] = c13_wrappers_body;
-    c13_recursive_memo [7] = c13_recursive_memo_body;
+    c13_recursive_memo [8] = c13_recursive_memo_body;
 }
